@@ -32,6 +32,12 @@ NOT_FUNCS = {"np.bitwise_not", "numpy.bitwise_not", "np.logical_not",
 
 
 MUTANTS = [
+    ("coordinate columns converted to plain arrays before the membership test",
+     "AegeanTools/MIMAS.py",
+     "    inside = region.sky_within(table[racol], table[deccol], degin=True)",
+     "    inside = region.sky_within(np.asarray(table[racol], dtype=float),\n"
+     "                               np.asarray(table[deccol], dtype=float), degin=True)",
+     "C10-R10"),
     ("membership look-up told the queried pixels are unique",
      "AegeanTools/regions.py",
      "        result = np.isin(pix, list(pixelset))\n",
@@ -730,6 +736,37 @@ def run(ctx):
               "and is tested at its hidden value, e.g. (0, 0)" %
               (norm(whole[0], 60) if whole else ""),
               node=whole[0] if whole else r2s_.node)
+    # ... and on the way there: the table masking functions hand the
+    # columns to sky_within as they are
+    from .c08 import _resolve_local as _rl10
+    DROP = ("array", "asarray", "asfarray", "ascontiguousarray", "stack",
+            "column_stack", "vstack", "hstack", "float64", "float_",
+            "nan_to_num", "tolist", "filled")
+    n10 = 0
+    for short in ("MIMAS.mask_table", "MIMAS.mask_catalog"):
+        f10 = prog.func(short)
+        for c in walk_no_nested(f10.node):
+            if not (isinstance(c, ast.Call) and
+                    isinstance(c.func, ast.Attribute) and
+                    c.func.attr == "sky_within"):
+                continue
+            for a in c.args[:2]:
+                n10 += 1
+                v = _rl10(f10.node, a) if isinstance(a, ast.Name) else a
+                drop = [x for x in ast.walk(v) if isinstance(x, ast.Call) and
+                        norm(x.func).split(".")[-1] in DROP or
+                        isinstance(x, ast.Attribute) and
+                        x.attr in ("data", "value", "values") and
+                        isinstance(x.ctx, ast.Load)]
+                ctx.check("C10-R10", f10, "coordinate column handed on as "
+                          "it is: " + norm(v, 60), not drop,
+                          "`%s` strips the mask of a table column before the "
+                          "membership test: a blank cell is then tested at "
+                          "the value stored under the mask (0 for csv / tab "
+                          "catalogues), i.e. at RA = 0 or on the equator" %
+                          (norm(drop[0], 60) if drop else ""), node=c)
+    ctx.floor("C10-R10", n10, 2, "coordinate arguments of sky_within in the "
+              "table masking functions")
     # ---------------------------------------------------------------- R11
     from ..core import shared_state as _shared
     ctx.rule("C10-R11", "masking uses the region that the file holds now: "
